@@ -555,6 +555,7 @@ def run(ck):
         reposition_reset(ck, P, cfg)
         compact_order(ck, P, cfg)
         start_recorded(ck, P, cfg)
+        eof_on_zero_read(ck, P, cfg)
     # the gz layer is a port of zlib-ng's gzlib.c / gzread.c / gzwrite.c: conditions, calls and stores of the paired functions
     from .. import condparity
     from .. import guards as _g
@@ -567,3 +568,45 @@ def run(ck):
 # session 5 (round 10)
 EXPLANATION = EXPLANATION + " " + (
     'GUARD/start-recorded: the position query that feeds GzState.start in gzopen_help is decided by mode and fd only, so every read handle - also one from gzdopen - rewinds to where its stream starts.')
+
+
+def eof_on_zero_read(ck, P, cfg, R="ATOM/eof-on-zero-read"):
+    """gz_load: end of file is what read(2) says by returning 0 - `if (ret == 0) state->eof = 1` - not a read that returned fewer
+    bytes than asked for (pipes, sockets and terminals do that in mid-stream).  The store eof = true in gz_load is dominated by a
+    comparison `== 0` of a value that read() returned."""
+    f = P.fn(G + "gz_load")
+    if not ck.anchor("fn gz::gz_load", f):
+        return
+    ck.use_fn(f)
+    reads = f.live_calls(r"libc::.*::read$|::read$")
+    rlocals = {c.dest["l"] for c in reads if c.dest and not c.dest.get("p")}
+    # locals that receive the result through copies
+    changed = True
+    while changed:
+        changed = False
+        for bi, si, lhs, rv, st in f.assignments():
+            if lhs.get("p") or lhs["l"] in rlocals:
+                continue
+            if rv.get("k") in ("use", "cast") and rv["a"].get("k") in ("copy", "move") and not rv["a"].get("p") and rv["a"]["l"] in rlocals:
+                rlocals.add(lhs["l"])
+                changed = True
+    stores = [(bb, st) for bb, fp, root, rv, st in f.field_writes() if fp and str(fp[-1]) == "eof" and f.const_of(rv if not isinstance(rv, dict) else f.rvalue_expr(rv)) == 1]
+    if not (ck.anchor("read() call in gz_load", bool(reads)) and ck.anchor("store eof = true in gz_load", bool(stores))):
+        return
+    for i, (bb, st) in enumerate(stores):
+        ok = False
+        for a in f.dominating_atoms(bb):
+            if a[0] == "cmp" and a[1] == "Eq":
+                sides = [mir.strip_casts(a[2]), mir.strip_casts(a[3])]
+                vals = [f.const_of(x) for x in sides]
+                if 0 in vals:
+                    other = sides[1 - vals.index(0)]
+                    if (other[0] in ("v", "p") and other[1] in rlocals) or any(x[0] == "call" and isinstance(x[1], str) and x[1].endswith("read") for x in mir.walk(other)):
+                        ok = True
+            if a[0] == "int" and a[3] and 0 in a[2]:
+                o = mir.strip_casts(a[1])
+                if (o[0] in ("v", "p") and o[1] in rlocals) or any(x[0] == "call" and isinstance(x[1], str) and x[1].endswith("read") for x in mir.walk(o)):
+                    ok = True
+        ck.decide(ok, R, "gz_load:eof#%d@%s" % (i, cfg), "eof = true only where read() returned 0",
+                  "gz_load sets eof = true on a path that is not decided by `read() == 0`: a short read from a pipe or socket is taken "
+                  "for the end of the file and the rest of the stream is never read", where(f, st.get("line") if isinstance(st, dict) else None))
